@@ -309,10 +309,49 @@ class Runner:
         cmd = self.cbmc_cmd(ob, gb, False)
         rc, out, errt, secs, rss = sh(cmd, timeout=budget, mem_gb=ob.mem_gb, cwd=d, env=env)
         r['seconds'], r['cmd'] = round(secs, 1), ' '.join(cmd[2:])
+        fallback = False
         if rc == -9:
+            # The all-properties run did not finish.  One cheap second pass with --stop-on-fail: if the solver exhibits a violated
+            # (unmasked) assertion that is a verdict and is reported; if it finds none in its budget the obligation stays inconclusive
+            # (never an alarm).  Typical case: a change that makes dozens of assertions fail, each needing its own solver iteration.
             r['status'] = 'inconclusive'
             r['detail'] = 'timeout after %ds' % budget
-            return r
+            fb = int(os.environ.get('VERIF_FALLBACK_S', '0')) or min(240, max(60, budget // 3))
+            # restrict the pass to the properties that are not masked (the copy-idiom pointer checks would otherwise be hit first)
+            sel = []
+            try:
+                rcp, outp, _, _, _ = sh(['cbmc', gb, '--function', 'harness', '--show-properties', '--json-ui'] + [x for x in cmd if x.startswith('--no-') or x in ('--signed-overflow-check', '--undefined-shift-check', '--unwinding-assertions', '--drop-unused-functions')], timeout=120, cwd=d, env=env)
+                mk = [re.compile(m) for m in GLOBAL_MASK + ob.mask]
+                for e in json.loads(outp):
+                    for pr in (e.get('properties') or []) if isinstance(e, dict) else []:
+                        desc = pr.get('description', '')
+                        if any(m.search(desc) for m in mk) or self.copy_idiom(desc, pr.get('sourceLocation', {})) or 'unwinding assertion' in desc:
+                            continue
+                        sel += ['--property', pr['name']]
+            except Exception:
+                sel = []
+            rc2, out2, errt2, secs2, rss2 = sh(cmd + ['--stop-on-fail'] + sel, timeout=fb, mem_gb=ob.mem_gb, cwd=d, env=env)
+            r['seconds'] = round(secs + secs2, 1)
+            if rc2 == -9:
+                return r
+            try:
+                dj = json.loads(out2)
+            except Exception:
+                return r
+            hit = [e for e in dj if isinstance(e, dict) and str(e.get('status', '')).upper() in ('FAILURE', 'FAILED') and 'property' in e]
+            if not hit:
+                return r
+            res = []
+            for e in hit:
+                sl = {}
+                for st in reversed(e.get('trace', [])):
+                    if st.get('sourceLocation'):
+                        sl = st['sourceLocation']
+                        break
+                res.append(dict(property=e['property'], description=e.get('description', ''), status='FAILURE', sourceLocation=sl))
+            out = json.dumps([{'result': res}, {'cProverStatus': 'failure'}])
+            fallback = True
+            r['detail'] = 'all-properties run timed out after %ds; failure found by a --stop-on-fail pass' % budget
         pj = self.parse_json(out)
         if pj is None or pj['results'] is None:
             txt = (out[-1500:] + errt[-1500:])
@@ -356,7 +395,7 @@ class Runner:
             r['status'] = 'error'
             r['detail'] = 'functions reached without a body (cbmc would return arbitrary values): ' + ','.join(nobody)
             return r
-        missing = [f for f in ob.functions if f not in funcs]
+        missing = [] if fallback else [f for f in ob.functions if f not in funcs]
         if missing:
             r['status'] = 'error'
             r['detail'] = 'harness does not reach the real body of: ' + ','.join(missing)
